@@ -3,6 +3,7 @@ import Mieru.Proofs.Discovery
 import Mieru.Proofs.SrcCache
 import Mieru.Proofs.Session
 import Mieru.Model.Reload
+import Mieru.Proofs.SrcCacheGen
 /-!
 # C07 — sessions are attributed to the authenticating user despite caches and reloads
 
@@ -442,6 +443,89 @@ example : ((tryState 3 (fun _ => false) (fun i => i == 3) [1, 2] false).user.map
     = ((tryState 3 (fun _ => false) (fun i => i == 3) [3, 3, 9] false).user.map (·.1)) :=
   tryState_cache_independent 3 _ _ [1, 2] false
     (by intro v w _ _ hv hw; simp only [beq_iff_eq] at hv hw; omega) [3, 3, 9]
+
+/-! ## tie (T): the model against definitions REGENERATED from source_user_cache.go / registry.go
+(`Mieru.Gen.SrcCache`, written by tools/goextract/c07srccache.go from the current working tree on every run) -/
+
+/-- the model's wrapping 32-bit age IS the translation of `sourceUserCacheAge` (uint32 `now - then`) -/
+theorem srccache_age_eq_gen (now seen : Nat) :
+    Mieru.SrcCache.age now seen = Mieru.Gen.SrcCache.sourceUserCacheAge now seen :=
+  Mieru.SrcCache.age_eq_gen now seen
+
+/-- the model's expiry test IS the translation of `sourceUserCacheExpired` (`age >= 600`) -/
+theorem srccache_expired_eq_gen (now seen : Nat) :
+    Mieru.SrcCache.expired now seen = Mieru.Gen.SrcCache.sourceUserCacheExpired now seen :=
+  Mieru.SrcCache.expired_eq_gen now seen
+
+/-- the 64-bit slot word the code stores atomically carries exactly the pair (user id, tick) the model
+    keeps: `sourceUserCacheUnpackUser (sourceUserCachePackUser id tick) = (id, tick)` (mod 2^32) -/
+theorem srccache_slot_word_roundtrip (id tick : Nat) :
+    Mieru.Gen.SrcCache.sourceUserCacheUnpackUser (Mieru.Gen.SrcCache.sourceUserCachePackUser id tick)
+      = (id % 4294967296, tick % 4294967296) :=
+  Mieru.SrcCache.slot_word_roundtrip id tick
+
+open Mieru.Gen.SrcCache in
+/-- STRUCTURE PINNED (functions with 16-way loops over atomics are not translated; the conditions,
+    their order and the writes the model mirrors are extracted as source text and pinned here):
+    * `lookup`: first way with the key (`continue` otherwise), an expired source ends the search
+      (`break`), empty / expired slots skipped, a duplicate keeps the SMALLER age (`<`), insertion
+      sort shifts while STRICTLY younger (`<`: stable) — `Mieru.SrcCache.lookup/candidates/insertByAge`;
+    * `recordUser`: own slot, first empty, first expired, STRICTLY oldest live (`>`), chosen in that
+      order — `Mieru.SrcCache.pickSlot`;
+    * `recordAuthenticatedInTable`: first way holding the key; `lastActive` refreshed; a fresh entry
+      gets `lastActive = now` and the user in slot 0 — `Mieru.SrcCache.record/freshEntry`;
+    * `tryState`: the four phases in the model's order, the mandatory stop between the second and the
+      third, the skip conditions of each phase; `markUserIDAttempted`, `userByID` guards;
+    * `discoverUser`: empty generation returns at once, the `requireCurrent` re-check comes after
+      `tryState` and the seam and before the rejection — `Mieru.Reload.Step`;
+    * `SetUsers` swaps the pointer, `retire` detaches the table. -/
+theorem source_structure_pinned :
+    lookupConds = ["if c == nil => return", "if c.stats != nil", "if table == nil => return", "if c.stats != nil",
+      "for way := 0; way < sourceUserCacheWays; way++", "if entry == nil || entry.key != key => continue",
+      "if sourceUserCacheExpired(now, entry.lastActive.Load()) => break", "for i := 0; i < sourceUserCacheUsers; i++",
+      "if userID == 0 || sourceUserCacheExpired(now, seen) => continue", "for j := 0; j < count; j++",
+      "if candidates[j].id == userID => break", "if duplicate >= 0 => continue",
+      "if age < candidates[duplicate].age => candidates[duplicate].age = age", "for i := 1; i < count; i++",
+      "for ; j > 0 && candidate.age < candidates[j-1].age; ", "for i := 0; i < count; i++", "if count > 0 => return",
+      "if c.stats != nil", "if c.stats != nil"] ∧
+    recordUserConds = ["for i := 0; i < sourceUserCacheUsers; i++", "case id == userID && same < 0",
+      "case id == 0 && empty < 0", "case id != 0 && sourceUserCacheExpired(now, seen) && expired < 0",
+      "case id != 0 && !sourceUserCacheExpired(now, seen)", "if oldest < 0 || age > oldestAge",
+      "if slot < 0 => slot = empty", "if slot < 0 => slot = expired", "if slot < 0 => slot = oldest",
+      "if oldID == userID && oldTick == now => return",
+      "if entry.users[slot].CompareAndSwap(old, sourceUserCachePackUser(userID, now)) => return"] ∧
+    recordUserSlotChoice = ["slot := same", "if slot < 0 { slot = empty }", "if slot < 0 { slot = expired }",
+      "if slot < 0 { slot = oldest }"] ∧
+    recordUserStores = ["entry.users[slot].CompareAndSwap(old, sourceUserCachePackUser(userID, now))"] ∧
+    recordAuthenticatedInTableConds = ["if c == nil || table == nil || userID == 0 => return",
+      "for way := 0; way < sourceUserCacheWays; way++",
+      "if ways[way] != nil && ways[way].key == key && match < 0 => match = way", "if match >= 0 => return",
+      "if sourceExpired"] ∧
+    recordAuthenticatedInTableStores = ["entry.lastActive.Store(now)", "replacement.lastActive.Store(now)",
+      "replacement.users[0].Store(sourceUserCachePackUser(userID, now))", "bucket.ways[selection.way].Store(replacement)"] ∧
+    recordAuthenticatedConds = ["if c == nil || userID == 0 => return", "if table == nil => return"] ∧
+    registry_retireStores = ["c.table.Swap(nil)"] ∧
+    registry_SetUsersStores = ["r.users.Swap(state)"] ∧
+    registry_discoverUserConds = ["if len(encryptedMetadata) < cipher.DefaultNonceSize => return",
+      "if publisher == nil => return", "if state == nil || len(state.users) == 0 => return",
+      "if hintMandatory != nil => mandatory = hintMandatory.Load()", "if afterAttempt != nil",
+      "if requireCurrent && publisher.Load() != state => continue", "if result.block == nil => return",
+      "if state.cache != nil && state.cache.stats != nil && (result.origin == matchCachedHint || result.origin == matchCachedFallback)"] ∧
+    registry_tryStateConds = ["if source.valid && state.cache != nil => cachedIDs, cachedCount = state.cache.lookup(source.key)",
+      "for i := 0; i < cachedCount; i++",
+      "if user == nil || userIDWasAttempted(&attemptedCachedIDs, attemptedCachedCount, user.id) || !cipher.CheckUserFromHint([]byte(user.name), nonce) => continue",
+      "if result.block != nil => return", "if state.cache != nil && state.cache.stats != nil",
+      "if userIDWasAttempted(&attemptedCachedIDs, attemptedCachedCount, user.id) || !cipher.CheckUserFromHint([]byte(user.name), nonce) => continue",
+      "if result.block != nil => return", "if hintMandatory => return", "for i := 0; i < cachedCount; i++",
+      "if user == nil || userIDWasAttempted(&attemptedCachedIDs, attemptedCachedCount, user.id) => continue",
+      "if cipher.CheckUserFromHint([]byte(user.name), nonce) => continue", "if result.block != nil => return",
+      "if userIDWasAttempted(&attemptedCachedIDs, attemptedCachedCount, user.id) => continue",
+      "if cipher.CheckUserFromHint([]byte(user.name), nonce) => continue", "if result.block != nil => return"] ∧
+    tryStatePhases = ["matchCachedHint", "matchRegistryHint", "matchCachedFallback", "matchRegistryFallback"] ∧
+    registry_markUserIDAttemptedConds = ["if count < len(attempted) && !userIDWasAttempted(attempted, count, userID) => return"] ∧
+    registry_userByIDConds = ["if state == nil || userID == 0 || userID > uint32(len(state.users)) => return",
+      "if user.id != userID => return"] := by
+  refine ⟨rfl, rfl, rfl, rfl, rfl, rfl, rfl, rfl, rfl, rfl, rfl, rfl, rfl, rfl⟩
 
 /-- tie (T): the cache geometry and lifetime the model uses are the constants of the CURRENT source
     (regenerated into `Mieru.Gen.Consts` from the compiled repository on every run) -/
